@@ -39,6 +39,8 @@ PROP = "C05"
 STEPS = ["copy", "map_and_copy", "dedup", "dedup_dw", "dce", "mpms", "unify", "preprocess"]
 KEEPS_META = {"copy", "map_and_copy", "dedup", "dedup_dw", "dce"}
 TAG_ONLY = {"mpms", "unify"}
+CALL_STEPS = ["copy", "map_and_copy", "dedup", "dedup_dw", "dce"]   # (mpms / unify / preprocess
+#                        raise NotImplementedError on functions: documented refusals)
 IDEMPOTENT = {"dedup", "dce", "mpms", "copy", "map_and_copy", "dedup_dw", "unify"}
 
 
@@ -329,6 +331,22 @@ def programs(tier: str) -> list[dict]:
         p["pipeline"] = [STEPS[k % len(STEPS)]] if k % 3 else \
             [str(s) for s in rng.choice(STEPS, size=int(rng.integers(2, 4)))]
         progs.append(p)
+    # graphs with calls to traced functions (C12's generator: 1..3 call sites, one
+    # definition called several times -- each site traces its own equal-but-distinct
+    # FunctionDefinition --, nested calls, tuple / dict results).  The transformations
+    # that document support for functions must preserve every output there, too.
+    from checks import c12
+    nc, tries = (120 if tier == "quick" else 1500), 0
+    k = 0
+    while k < nc and tries < nc * 5:
+        tries += 1
+        p = c12.random_call_program(rng, f"f{k}")
+        if p is None:
+            continue
+        p["pipeline"] = [CALL_STEPS[k % len(CALL_STEPS)]] if k % 3 else \
+            [str(s) for s in rng.choice(CALL_STEPS, size=int(rng.integers(2, 4)))]
+        progs.append(p)
+        k += 1
     return progs
 
 
@@ -365,7 +383,12 @@ def build(prog: dict) -> dict:
                 if i.get("alias_T"):
                     arr = arr.T      # same start, shape, dtype -- different strides
             data[i["name"]] = arr
-    pb = rp.PtBackend(data)
+    if prog.get("funcs"):
+        from checks import c12
+        pb = c12.PtCalls(data)
+        pb.mode = "trace"
+    else:
+        pb = rp.PtBackend(data)
     pb.run(prog)
     if pb.rejections:
         res["status"] = "pytato_rejects:" + str(next(iter(pb.rejections.values())))[:100]
